@@ -36,6 +36,15 @@ def corpus(tier, seed):
         std_spec("gauss2", s + 12, 50, reparameterisations={"x0": "inversion", "x1": "zscore"},
                  latent_prior="truncated_gaussian", constant_volume_mode=False),
     ]
+    # training / reset policies (TrainPolicy.tla): periodic retraining, cooldown, memory, resets
+    specs += [
+        std_spec("gauss2", s + 31, 50, training_frequency=15, cooldown=10, memory=30, reset_weights=2,
+                 reset_permutations=3),
+        std_spec("rosen2", s + 32, 50, training_frequency=25, cooldown=40, reset_flow=2, train_on_empty=False,
+                 kills=[260]),
+        std_spec("hole2", s + 33, 50, retrain_acceptance=True, reset_acceptance=True, acceptance_threshold=0.3,
+                 cooldown=5, memory=10),
+    ]
     if tier == "thorough":
         k = 13
         for model in ("gauss2", "plateau2", "hole2", "rosen2", "gauss4", "nonuni2"):
